@@ -88,6 +88,7 @@ pub fn shapes(values: &[f64], max_len: usize) -> Vec<Vec<f64>> {
 /// the "nasty" end values of DESIGN 3.2 (ascending; -0.0 and +0.0 both present)
 pub fn nasty_values() -> Vec<f64> {
     vec![
+        f64::NEG_INFINITY,
         -f64::MAX,
         -1.0,
         -2.2250738585072014e-308,
@@ -209,6 +210,20 @@ pub fn big_shapes(thorough: bool, cap: usize) -> Vec<Vec<f64>> {
             d[i] = d[n / 3];
         }
         out.push(d);
+        if n >= 64 {
+            // one end far away from all the others (differences x - first / last - first lose every bit of x)
+            let mut h = vec![-1e19];
+            h.extend((0..n - 1).map(|i| i as f64));
+            out.push(h);
+            let mut h: Vec<f64> = (0..n - 1).map(|i| i as f64).collect();
+            h.push(1e19);
+            out.push(h);
+            let mut h = vec![-10.0];
+            h.extend((0..n - 2).map(|i| i as f64 * 0.0625));
+            let last = *h.last().unwrap();
+            h.push(last);
+            out.push(h);
+        }
     }
     for n in [33usize, 34, 65, 66].into_iter().chain(if thorough { vec![100usize, 129] } else { vec![] }) {
         if n > cap {
